@@ -12,13 +12,13 @@ func init() {
 	register("C20", PropertyMeta{
 		Technique: "decision-table extraction over orderings of (address, length, capacity) + validation-dominates-mutation (SSA dominance) + allocation-length provenance + checkpoint field-order agreement",
 		Explanation: "Decides on mem/storage.go and storage_checkpoint.go: (1) the per-unit guard rejects address >= capacity in every ordering, without allocating; (2) Read and Write validate the whole range before touching any byte: every unit lookup and every copy is dominated by the success branch of a range validator whose decision table is `error iff length > 0 and (address >= capacity or length > capacity - address)` — a form that cannot wrap around the address space — so a failing access leaves the contents unchanged; " +
-			"(3) every allocation unit is created with exactly unitSize bytes, which is what SaveCheckpoint writes and LoadCheckpoint reads per unit; (4) Save and Load agree on the field order capacity, unit size, unit count, then (address, data) per unit, units written in sorted address order and Load installs the decoded map.",
+			"(3) every allocation unit is created with exactly unitSize bytes, which is what SaveCheckpoint writes and LoadCheckpoint reads per unit; (4) Save and Load agree on the field order capacity, unit size, unit count, then (address, data) per unit, units written in sorted address order and Load installs the decoded map. (unit-arithmetic) unit base and offset are computed from unitSize by division and remainder only (no mask or shift, which would need a power-of-two size).",
 		NotDecided:  "byte-for-byte equality of reads with an array model (value-level).",
 		Assumptions: []string{"the small-model domain {0..3} covers every ordering of address, length and capacity"},
 	}, runC20)
 	register("C24", PropertyMeta{
 		Technique:   "only-through provenance (data-dependence slice) on the converter result + sibling agreement + decision tables for the ownership and offset guards",
-		Explanation: "Decides on mem/addressconverter.go and mem/addrconv.go: in both sibling implementations the external address reaches the returned internal address only through `external - offset` (any other use, such as a remainder of the raw address, breaks contiguity whenever the offset is not stripe-aligned); an address below the offset, and an address whose stripe belongs to another element, panics instead of being converted.",
+		Explanation: "Decides on mem/addressconverter.go and mem/addrconv.go: in both sibling implementations the external address reaches the returned internal address only through `external - offset` (any other use, such as a remainder of the raw address, breaks contiguity whenever the offset is not stripe-aligned); an address below the offset, and an address whose stripe belongs to another element, panics instead of being converted. (mapper-stateless) InterleavedAddressPortMapper.Find stores nothing into the mapper, so its answer follows the exported interleaving parameters.",
 		NotDecided:  "one-to-one-ness and order preservation as arithmetic facts; agreement between the converter's element selection and the interleaved port mapper's (equal expressions only for round-aligned offsets).",
 		Assumptions: []string{},
 	}, runC24)
@@ -41,6 +41,7 @@ func init() {
 func isErrNil(v *Val) bool { return v != nil && v.Str == "nil" }
 
 func runC20(c *Ctx) {
+	unitArithmeticRule(c, "unit-arithmetic")
 	p := c.P
 	dom := []int{0, 1, 2, 3}
 	capF := c.field("anchors", "mem", "Storage", "capacity")
@@ -304,6 +305,8 @@ func runC20(c *Ctx) {
 }
 
 func runC24(c *Ctx) {
+	lookupStatelessRule(c, "mapper-stateless", "mem", "InterleavedAddressPortMapper", "Find",
+		"the interleaving parameters are exported fields that builders read and assign; a value derived from them and remembered in the mapper goes stale when they change, and the mapper then routes an address to a different element than the one whose converter accepts it")
 	p := c.P
 	type sib struct {
 		rel, recv, name string
